@@ -53,7 +53,8 @@ LEVEL_TEXT = ('Each API of the table is executed on every bounded '
               'configuration and the input is compared before/after by '
               'canonical form and identity snapshot.')
 LEVEL_NOTE = ('Trusted: mc.canon, the snapshot function in this file. Bounds: '
-              'N<=2 full menu + N=3 reduced menu (quick), N<=3 (thorough); '
+              'N<=2 full menu + N=3 reduced menu; the thorough tier uses three '
+              'leaves and a larger reduced menu; '
               '~70 entry-point/option combinations.')
 
 MENU = ['cfg', 'par', 'cfgpos', 'list2', 'dict1', 'tuple1']
@@ -77,8 +78,8 @@ NCHUNK = 48
 def bounds(tier):
   if tier == 'quick':
     return dict(n=2, nl=2, n_small=3, small_menu=['cfg', 'list2'], small_nl=1)
-  return dict(n=3, nl=2, n_small=3, small_menu=['cfg', 'par', 'list2'],
-              small_nl=3)
+  return dict(n=2, nl=3, n_small=3, small_menu=['cfg', 'par', 'list2'],
+              small_nl=2)
 
 
 def units(tier, seed):
